@@ -966,10 +966,13 @@ impl Compiler {
         if let Some(finalizer) = &try_stmt.finalizer {
             self.builder.set_span(finalizer.span);
 
-            // Compile finally block
+            // Compile finally block in its own block scope (its let/const/class declarations
+            // must not leak into the enclosing scope)
+            self.builder.emit(Op::PushScope);
             for stmt in finalizer.body.iter() {
                 self.compile_statement_impl(stmt)?;
             }
+            self.builder.emit(Op::PopScope);
 
             // FinallyEnd completes any pending return/throw
             self.builder.emit(Op::FinallyEnd);
